@@ -345,3 +345,146 @@ def block_rotation_moves_children(i: int, j: int, m: int, n: int, k: int, cx: fl
     c, s = math.cos(rad), math.sin(rad)
     assert eq(fl.i, cx * c - cy * s) and eq(fl.j, cx * s + cy * c) and eq(fl.k, cz)
     assert nowhere.spatialLocator is None
+
+
+# ----------------------------------------------------------------------------- widened hypotheses (assumption review)
+# The symmetry lemmas above use a flats-up grid of pitch 1 (hex) and a square grid of pitch 1 (Cartesian).  The
+# quantifier says "both hex orientations"; nothing conditions on the pitch.  A corners-up grid is the flats-up grid
+# turned by +30 degrees, so its sector and its symmetry lines are the flats-up ones turned by 30 degrees.
+def unturned(x, y, cornersUp):
+    """coordinates in the frame of the flats-up picture: a corners-up grid is turned back by 30 degrees"""
+    if cornersUp:
+        return SQRT3 / 2.0 * x + y / 2.0, -x / 2.0 + SQRT3 / 2.0 * y
+    return x, y
+
+
+@lemma(gen={"pitch": (0.05, 40.0), "i": (-40, 40), "j": (-40, 40)})
+def first_third_membership_matches_coordinates_either_orientation_any_pitch(i: int, j: int, top: bool, pitch: float, cornersUp: bool):
+    assume(pitch > 0)  # (P) a pitch is a length
+    g = hexgrid(pitch, cornersUp, "third periodic")
+    loc = IndexLocation(i, j, 0, g)
+    inside = g.isInFirstThird(loc, top)
+    xr, yr = xy(g, i, j)
+    x, y = unturned(xr, yr, cornersUp)
+    s = SQRT3 * x + y  # signed distance (x 2) from the 120-degree line
+    if NATIVE:
+        # floating point only: a centre ON a boundary line is off it by rounding noise; snap it (lines are >= pitch / 2 apart)
+        y = 0.0 if eq(y / pitch, 0.0) else y
+        s = 0.0 if eq(s / pitch, 0.0) else s
+    on120 = eq(s, 0.0) and y > 0
+    geometric = (i == 0 and j == 0) or (y >= 0 and (s > 0 or (top and on120)))
+    assert inside == geometric
+    assert g.locatorInDomain(loc, top) == inside
+
+
+@lemma(gen={"pitch": (0.05, 40.0), "i": (-40, 40), "j": (-40, 40)})
+def symmetry_line_classification_either_orientation_any_pitch(i: int, j: int, pitch: float, cornersUp: bool):
+    assume(pitch > 0)  # (P) a pitch is a length
+    g = hexgrid(pitch, cornersUp, "third periodic")
+    line = g.overlapsWhichSymmetryLine((i, j))
+    xr, yr = xy(g, i, j)
+    x, y = unturned(xr, yr, cornersUp)
+    if i == 0 and j == 0:
+        assert line == constants.BOUNDARY_CENTER
+    elif eq(y, 0.0) and x > 0:
+        assert line == constants.BOUNDARY_0_DEGREES
+    elif eq(y, SQRT3 * x) and x > 0:
+        assert line == constants.BOUNDARY_60_DEGREES
+    elif eq(y, -SQRT3 * x) and x < 0:
+        assert line == constants.BOUNDARY_120_DEGREES
+    else:
+        assert line is None
+
+
+@lemma(gen={"i": (-40, 40), "j": (-40, 40)})
+def orbit_members_in_domain_with_the_top_edge_included(i: int, j: int):
+    """exactly_one_orbit_member_in_domain asks without the top edge only.  With it (symmetryOverlap=True, used when edge
+    assemblies are added) an orbit has one member in the domain unless it lies on the sector's boundary lines (0 / 120
+    degrees), where it has the two that overlap the boundary - 'apart from cells on symmetry lines'"""
+    assume(not (i == 0 and j == 0))  # the centre cell is its own orbit (covered by third_equivalents_are_120_240_images)
+    g = hexgrid(1.0, False, "third periodic")
+    a, b = g.getSymmetricEquivalents((i, j, 0))
+    n = 0
+    onBoundary = False
+    for cell in ((i, j), a, b):
+        if g.isInFirstThird(IndexLocation(cell[0], cell[1], 0, g), True):
+            n += 1
+        line = g.overlapsWhichSymmetryLine(cell)
+        if line == constants.BOUNDARY_0_DEGREES or line == constants.BOUNDARY_120_DEGREES:
+            onBoundary = True
+    assert n == (2 if onBoundary else 1)
+
+
+def cartgrid_wh(w, h, isOffset, symmetry):
+    return new(
+        CartesianGrid,
+        _unitSteps=np.array(((w, 0.0, 0.0), (0.0, h, 0.0), (0, 0, 0))),
+        _bounds=(None, None, None),
+        _stepDims=((0, 1, 2),),
+        _boundDims=((),),
+        _offset=np.array((w / 2.0, h / 2.0, 0.0)) if isOffset else np.zeros(3),
+        _unitStepLimits=((-3, 3), (-3, 3), (0, 1)),
+        _symmetry=symmetry,
+    )
+
+
+@lemma(gen={"i": (-20, 20), "j": (-20, 20), "w": (0.05, 30.0), "h": (0.05, 30.0)})
+def cartesian_quarter_reflective_images_any_rectangle(i: int, j: int, through: bool, w: float, h: float):
+    """cartesian_quarter_reflective_images for a rectangular cell of any width and height (reflections in the axes are
+    symmetries of every rectangular lattice; quarter turns only of a square one: (P) for the rotational lemma)"""
+    assume(w > 0 and h > 0)  # (P) pitches are lengths
+    if through:
+        g = cartgrid_wh(w, h, False, "quarter reflective through center assembly")
+    else:
+        g = cartgrid_wh(w, h, True, "quarter reflective")
+    eqs = g.getSymmetricEquivalents((i, j))
+    x, y = cxy(g, i, j)
+    images = [(-x, y), (-x, -y), (x, -y)]
+    got = [cxy(g, e[0], e[1]) for e in eqs]
+    for p in got:
+        assert any([eq(p[0], im[0]) and eq(p[1], im[1]) for im in images]), "every reported cell is a reflection image"
+    if through and i == 0 and j == 0:
+        assert len(eqs) == 0
+    elif through and (i == 0 or j == 0):
+        assert len(eqs) == 1
+        assert not (eq(got[0][0], x) and eq(got[0][1], y))
+    else:
+        assert len(eqs) == 3
+        for im in images:
+            assert any([eq(p[0], im[0]) and eq(p[1], im[1]) for p in got]), "every reflection image is reported"
+
+
+SYMS = [
+    ("quarter periodic", True),
+    ("quarter reflective", True),
+    ("quarter periodic through center assembly", False),
+    ("quarter reflective through center assembly", False),
+]
+
+
+@lemma(gen={"i": (-20, 20), "j": (-20, 20), "v": (0, 3)})
+def cartesian_quarter_orbits_have_one_member_in_the_domain(i: int, j: int, v: int):
+    """'each orbit has exactly one member in the modelled domain apart from cells on symmetry lines' for the four
+    quarter-core Cartesian variants (the lemmas above state the images, cartesian_domain_membership one variant's
+    domain): the domain is the closed first quadrant of indices; off the symmetry lines (through-centre grids: the
+    row / column of index 0) exactly one of {cell} + equivalents is in it; a cell ON a line lies on the domain's edge
+    and is classified by its coordinates: x = 0 or y = 0"""
+    v = choose(v, 0, 3)
+    sym, isOffset = SYMS[v]
+    g = cartgrid(isOffset, sym)
+    eqs = g.getSymmetricEquivalents((i, j))
+    orbit = [(i, j)] + [(e[0], e[1]) for e in eqs]
+    n = 0
+    for cell in orbit:
+        loc = IndexLocation(cell[0], cell[1], 0, g)
+        x, y = cxy(g, cell[0], cell[1])
+        assert g.locatorInDomain(loc) == (x >= 0 and y >= 0), "in the domain = centre in the closed first quadrant"
+        if g.locatorInDomain(loc):
+            n += 1
+    x, y = cxy(g, i, j)
+    onLine = eq(x, 0.0) or eq(y, 0.0)
+    assert onLine == ((not isOffset) and (i == 0 or j == 0))
+    if not onLine:
+        assert n == 1
+    else:
+        assert n >= 1
